@@ -79,6 +79,9 @@ func before(target string) func([]byte) {
 	}
 }
 
+var builders = map[string]bool{"Add": true, "Append": true, "Prepend": true, "Insert": true, "Put": true, "Push": true, "Enqueue": true,
+	"Remove": true, "Pop": true, "Dequeue": true}
+
 var adders = map[string]bool{"Add": true, "Append": true, "Prepend": true, "Put": true, "Push": true, "Enqueue": true}
 
 func check(c Case) (pbt.Info, error) {
@@ -121,8 +124,16 @@ func check(c Case) (pbt.Info, error) {
 func gen(kind string) func(t *rapid.T) Case {
 	return func(t *rapid.T) Case {
 		c := Case{Cfg: refl.GenCfg(t, kind)}
-		methods := refl.Methods(c.Cfg)
-		c.Steps = refl.GenSteps(t, methods, 3, 12)
+		// every exported method, the structure-building ones listed three more times so
+		// that rarely reached shapes (deep trees, wrapped rings, long lists) are common
+		var methods []string
+		for _, m := range refl.Methods(c.Cfg) {
+			methods = append(methods, m)
+			if builders[m] {
+				methods = append(methods, m, m, m)
+			}
+		}
+		c.Steps = refl.GenSteps(t, methods, 3, 14)
 		return c
 	}
 }
